@@ -159,6 +159,13 @@ def check(ctx, case):
 			exp_ids = ids if ids is not None else list(range(len(sigs)))
 			exp_meta = meta if meta is not None else SignaturesMeta()
 			lsigs = [np.asarray(loaded[i]).tolist() for i in range(len(loaded))]
+			# iteration must give the same signatures, and they must stay valid after the iteration has moved on
+			kept = list(loaded)
+			if [np.asarray(x).tolist() for x in kept] != lsigs:
+				pf.append('signatures obtained by iterating the loaded file (all kept) differ from those obtained by indexing')
+			from gambit.sigs.base import SignatureList as _SL, SignatureArray as _SA
+			if [np.asarray(x).tolist() for x in _SL(loaded)] != lsigs or [np.asarray(x).tolist() for x in _SA(loaded)] != lsigs:
+				pf.append('a collection built from the loaded file differs from the file')
 			line = (f'c12.rt {"1" if fast else "0"} {k} {hx(prefix.encode())} {dt.itemsize} {natlists(sigs)} {nats(raw_values)} {nats(raw_bounds)} '
 			        f'{loaded.kmerspec.k} {hx(loaded.kmerspec.prefix)} {np.dtype(loaded.dtype).itemsize} {natlists(lsigs)} '
 			        f'{canon_ids(exp_ids)} {canon_ids(loaded.ids)} {canon_meta(exp_meta)} {canon_meta(loaded.meta)}')
@@ -200,6 +207,22 @@ def run(ctx):
 	sub({'kind': 'foreign', 'what': 'text', 'data': '\x89HDF but not really'}, 'foreign')
 	for n in range(0, 8):
 		sub({'kind': 'foreign', 'what': 'short', 'n': n}, 'foreign')
+	# large signatures: more than 2^16 values in one signature / in the file, followed by further signatures
+	for j in range(ctx.q(6, 60)):
+		if not ctx.time_left(0.3):
+			break
+		k = rng.choice([9, 10, 11, 16])
+		U = 4 ** k
+		def big(m):
+			start = rng.randrange(U - 2 * m)
+			return sorted(rng.sample(range(start, start + 2 * m), m))
+		m1 = rng.choice([65535, 65536, 65537, 70000, 140000])
+		sigs = [big(rng.randint(1, 50)) for _ in range(rng.randint(0, 2))] + [big(m1)] + [big(rng.choice([1, 30, 70000])) for _ in range(rng.randint(1, 3))]
+		if rng.random() < 0.3:
+			sigs.insert(rng.randrange(len(sigs)), [])
+		sub({'kind': 'rt', 'k': k, 'prefix': 'ATGAC', 'sigs': sigs, 'cont': rng.choice(['array', 'list', 'annotated-array', 'annotated-list']),
+		     'ids': rng.choice(['default', 'strlist', 'intlist']), 'ids_seed': rng.randrange(10 ** 6), 'meta': None,
+		     'compression': rng.choice([None, None, 'gzip', 'lzf']), 'indexes': [{'t': 'int', 'i': -1}, {'t': 'slice', 'a': None, 'b': None, 'c': -1}]}, 'roundtrip-large')
 	ks = list(range(1, 33))
 	for j in range(ctx.q(700, 5000)):
 		if not ctx.time_left(0.92):
